@@ -30,6 +30,12 @@ func genbankFieldNameParser(q interface{}, depth int) pars.Parser {
 		}
 		name := string(result.Token)
 		indentLength := depth - len(name)
+		if indentLength < 0 {
+			// The field name is wider than the indent of this record.
+			state.Clear()
+			what := fmt.Sprintf("uneven indent in field `%s`", name)
+			return pars.NewError(what, state.Position())
+		}
 		indentParser := pars.String(strings.Repeat(" ", indentLength))
 		paddingParser := pars.Any(indentParser, pars.Dry(pars.EOL))
 		if paddingParser(state, pars.Void) != nil {
@@ -165,6 +171,9 @@ func genbankDBLinkPairParser(gb *GenBank, depth int) pars.Parser {
 		case -1:
 			return pars.NewError("expected `:`", state.Position())
 		default:
+			if len(s) < i+2 {
+				return pars.NewError("expected a value after `:`", state.Position())
+			}
 			db, id := s[:i], s[i+2:]
 			gb.Fields.DBLink.Set(db, id)
 			return nil
